@@ -244,7 +244,7 @@ func c08Fork(c *Ctx, g *gameModel) {
 	r.Check(len(missing) == 0, "R08-fork", "board.Board.Fork copies every Board field", where, "", "fields left at their zero value in the fork: "+strings.Join(missing, ", "))
 
 	// value-typed fields are copied from the receiver's same field
-	recv := fork.Params[0].Name()
+	recv := paramName(fork.Params[0])
 	bad := ""
 	for f, v := range stored {
 		ft := fieldByName(bst, f).Type()
